@@ -69,6 +69,30 @@ class SimLock:
         return False
 
 
+class SimRLock(SimLock):
+    """Re-entrant variant (threading.RLock)."""
+
+    def __init__(self, sched):
+        SimLock.__init__(self, sched)
+        self.count = 0
+
+    def acquire(self, blocking=True, timeout=-1):
+        me = self.sched.me()
+        if me is not None and self.owner == me.tid:
+            self.count += 1
+            return True
+        ok = SimLock.acquire(self, blocking, timeout)
+        if ok:
+            self.count = 1
+        return ok
+
+    def release(self):
+        self.count -= 1
+        if self.count <= 0:
+            self.count = 0
+            SimLock.release(self)
+
+
 class SimThread:
     def __init__(self, tid, sched):
         self.tid = tid
@@ -148,6 +172,9 @@ class Scheduler:
 
     def make_lock(self):
         return SimLock(self)
+
+    def make_rlock(self):
+        return SimRLock(self)
 
     def me(self):
         return self.by_ident.get(threading.get_ident())
